@@ -220,6 +220,36 @@ pub fn variants(ev: Ev, s: &str, ast: Option<&Ast>, rng: &mut Rng) -> Vec<(&'sta
     out
 }
 
+/// Every site of every structural rewrite of a well-formed input (where `variants` picks one at random).
+pub fn all_sites(ev: Ev, s: &str, ast: &Ast) -> Vec<(&'static str, String)> {
+    let mut out: Vec<(&'static str, String)> = vec![];
+    for kind in ["floor-bracket", "ceil-bracket", "mod-operator", "pow-operator", "redundant-brackets"] {
+        let f = node_rewrite(kind);
+        for k in 0..count_matching(ast, f.as_ref()) {
+            out.push((kind, map_nth(ast, k, &mut 0, f.as_ref()).render()));
+        }
+    }
+    if let Ok(toks) = lex(ev, s) {
+        for k in operand_starts(&toks) {
+            let mut t = toks.clone();
+            t.insert(k, Tok::Plus);
+            out.push(("prefix-plus", render_tokens(&t)));
+        }
+        for (k, to_sup) in sup_sites(&toks) {
+            let mut t = toks.clone();
+            if to_sup {
+                if let Tok::Num(d) = &toks[k + 1] {
+                    t.splice(k..k + 2, [Tok::Sup(d.clone())]);
+                }
+            } else if let Tok::Sup(d) = &toks[k] {
+                t.splice(k..k + 1, [Tok::Caret, Tok::Num(d.clone())]);
+            }
+            out.push(("superscript", render_tokens(&t)));
+        }
+    }
+    out
+}
+
 impl Monitor for C13 {
     fn id(&self) -> &'static str {
         "C13"
@@ -245,6 +275,45 @@ impl Monitor for C13 {
                 for (kind, t) in variants(ev, &s, if malformed { None } else { Some(&ast) }, &mut rng) {
                     if t != s {
                         ctx.check(&Case::pair(ev, kind, &s, ph, &t, ph), &|c, st| self.judge(c, st));
+                    }
+                }
+            }
+            // short templates around `@` - sign runs, signs under and over every operator, postfix
+            // operators, calls - with the extreme values of the type as placeholder, rewritten at every
+            // site of every structural rewrite: where the value is i64::MIN, -0.0, the largest Decimal, a
+            // NaN ..., an operation that is the identity for every other value is not (seeded change
+            // C13-r9: runs of prefix signs collapsed by parity, so `--@` kept i64::MIN where `-(-@)` fails)
+            {
+                let mut templates: Vec<String> = vec!["--@", "-+-@", "---@", "+--@", "1+--@", "2*--@", "--@*1", "-(-@)", "--(@)", "abs(--@)", "--@+1", "0--@", "0-@", "-@", "--@^1", "-@^2", "(-@)^2", "1-@", "@-1", "@*1", "@/1", "@+0", "0+@", "-(@+1)", "-(@-1)", "-(0-@)", "abs(@)", "abs(-@)", "-abs(@)", "@^1", "@²", "-@²", "sgn(-@)", "max(-@,--@)", "min(@,-@)", "pow(-@,1)", "pow(--@,1)"].into_iter().map(String::from).collect();
+                if has_fact_mod(ev) {
+                    templates.extend(["--@%7", "-@%7", "mod(--@,7)", "mod(-@,7)", "-@!", "(-@)!"].into_iter().map(String::from));
+                }
+                if has_floorceil_brackets(ev) {
+                    templates.extend(["floor(--@)", "ceil(-@)", "-floor(@)", "⌊--@⌋"].into_iter().map(String::from));
+                }
+                if has_bitops(ev) {
+                    templates.extend(["--@>>1", "-@<<1", "--@&-1", "--@|0"].into_iter().map(String::from));
+                }
+                let mut phs2 = super::c14::extreme_placeholders(ev);
+                phs2.extend(phs.iter().take(6).copied());
+                for t in &templates {
+                    let ast = match parse(ev, t) {
+                        Ok(p) if !p.unspec => p.ast,
+                        _ => continue,
+                    };
+                    let sites = all_sites(ev, t, &ast);
+                    for ph in &phs2 {
+                        for (kind, u) in &sites {
+                            if u != t && ctx.mine() {
+                                ctx.check(&Case::pair(ev, kind, t, *ph, u, *ph).with_extra("template"), &|c, st| {
+                                    let v = self.judge(c, st);
+                                    if let Verdict::Pass { .. } = v {
+                                        st.inc("template_sites_equal");
+                                    }
+                                    v
+                                });
+                            }
+                        }
                     }
                 }
             }
